@@ -27,7 +27,7 @@ func init() {
 		},
 		Run:            c16Run,
 		Floor:          func(tier string) int { return 800 },
-		Rule:           "models built from per-sample operators along a tracked batch axis: (A) dense chains on [N,F] (Gemm/MatMul against weights, elementwise with per-feature weights, Relu/Tanh/Sigmoid, PRelu, Softmax/LogSoftmax over the feature axis, Scaler, LinearRegressor, Concat/Gather/Slice on the feature axis, Flatten/Unsqueeze/Squeeze/Reshape that keep the batch axis), (B) Conv on [N,C,H,W] followed by Flatten and Gemm, (C) RNN/GRU/LSTM on [S,N,I] (batch on axis 1) followed by Squeeze and elementwise operators; plus the sample models mlp, gru, scaler, ndm. For batch sizes 2..6 the real code is its own reference: Run(batch)[i] ~ Run(sample i alone), Run(permuted batch) ~ permuted Run(batch), Run(sub-selection) ~ the selected rows; in half of the cases the batch and its parts run on ONE loaded model (alternating batch sizes), otherwise on freshly loaded models (tolerance 2e-4 abs+rel: BLAS blocking may differ with the batch size; a row-mixing defect changes results by O(1)); success/failure must agree between the batch and its parts. Non-trivial = batch >= 2 with rows that differ; distinct = (model structure, batch size, relation).",
+		Rule:           "models built from per-sample operators along a tracked batch axis: (A) dense chains on [N,F] (Gemm/MatMul against weights, elementwise with per-feature weights, one column per sample stretched against a weight vector whose length may coincide with the batch size, Relu/Tanh/Sigmoid, PRelu, Softmax/LogSoftmax over the feature axis, Scaler, LinearRegressor, Concat/Gather/Slice on the feature axis, Flatten/Unsqueeze/Squeeze/Reshape that keep the batch axis), (B) Conv on [N,C,H,W] followed by Flatten and Gemm, (C) RNN/GRU/LSTM on [S,N,I] (batch on axis 1) followed by Squeeze and elementwise operators; plus the sample models mlp, gru, scaler, ndm. For batch sizes 2..6 the real code is its own reference: Run(batch)[i] ~ Run(sample i alone), Run(permuted batch) ~ permuted Run(batch), Run(sub-selection) ~ the selected rows; in half of the cases the batch and its parts run on ONE loaded model (alternating batch sizes), otherwise on freshly loaded models (tolerance 2e-4 abs+rel: BLAS blocking may differ with the batch size; a row-mixing defect changes results by O(1)); success/failure must agree between the batch and its parts. Non-trivial = batch >= 2 with rows that differ; distinct = (model structure, batch size, relation).",
 		RaceInThorough: true,
 		Technique:      "runtime monitoring: metamorphic relations on the real code (batch decomposition, permutation, sub-selection)",
 		Assumptions:    []string{"the generator only emits operators that act per sample along the tracked batch axis"},
@@ -200,7 +200,18 @@ func genBatchModel(r *gen.R) *batchModel {
 		xv := p.Values[cur]
 		rank := xv.Rank()
 		feat := rank - 1 // the last axis is never the batch axis here
-		switch r.Intn(9) {
+		switch r.Intn(10) {
+		case 9: // one column per sample, stretched against a weight vector: (..,1) op (F') -> (..,F')
+			d := xv.Shape[feat]
+			col := p.addInit("col", gen.I64s(int64(r.Range(-d, d-1))))
+			add(progNode{G: mon.GNode{Op: "Gather", Inputs: []string{cur, col}, Attrs: []*mon.Attr{mon.AttrI("axis", int64(feat))}}, Mode: CmpBits, Eval: exactEval(func(in []*ref.T) (*ref.T, error) { return ref.Gather(in[0], in[1], feat) })}, axis)
+			op := r.PickStr("Add", "Mul", "Sub")
+			w := p.addInit("w", p.smallWeights([]int{r.Range(2, 6)}, 1))
+			ins := []string{cur, w}
+			if r.Chance(0.3) {
+				ins = []string{w, cur}
+			}
+			add(progNode{G: mon.GNode{Op: op, Inputs: ins}, Mode: CmpIEEE, Eval: exactEval(func(in []*ref.T) (*ref.T, error) { return ref.Binary(op, in[0], in[1]) })}, axis)
 		case 0:
 			op := r.PickStr("Relu", "Tanh", "Sigmoid")
 			add(progNode{G: mon.GNode{Op: op, Inputs: []string{cur}}, Mode: CmpTol, Eval: approxEval(func(in []*ref.T) (*ref.Approx, error) { return ref.Unary(op, in[0]) })}, axis)
